@@ -1731,7 +1731,7 @@ class StringEncoded(Adapter):
         try:
             return obj.encode(self.encoding)
         except:
-            raise StringError(f"cannot use encoding {self.encoding!r} to encode {obj!r}")
+            raise StringError(f"cannot use encoding {self.encoding!r} to encode {obj!r}", path=path)
 
     def _emitparse(self, code):
         raise NotImplementedError
